@@ -18,12 +18,18 @@ COMPONENTS = {"real": ["pyjelly serializers of both integrations", "protobuf upb
               "stub": ["reader: simkit.wire + simkit.refdec (independent codec and spec state machine)"]}
 ASSUMPTIONS = ["the reference decoder's reading of rdf.proto (DESIGN.md section 3)",
                "inputs and configurations are sampled"]
-PROBES = ["evictions", "ns_streams", "rdflib_streams", "generic_streams", "physical_GRAPHS", "repeated_options",
+PROBES = ["shared_stream_writes", "evictions", "ns_streams", "rdflib_streams", "generic_streams", "physical_GRAPHS",
           "zero_name_ids", "zero_prefix_ids", "zero_entry_ids"]
 SHRINK_LISTS = ["ops"]
 
 
 def generate(rng, run, tier):
+    if rng.random() < 0.12:
+        # several containers written through one shared stream (grouped writes, incl. a shared GraphStream)
+        from checks import c07
+        plan = c07.gen_grouped(rng)
+        plan["kind"] = "grouped"
+        return plan
     if rng.random() < 0.6:
         plan = c01.generate(rng, run, tier)
     else:
@@ -59,11 +65,16 @@ def execute(plan, sim):
     sim.count(cfg["integration"] + "_streams")
     sim.count("physical_" + cfg["physical"])
     try:
-        data = nodes.serialize(cfg, plan["ops"], sim)
+        if plan.get("kind") == "grouped":
+            from checks import c07
+            sim.count("shared_stream_writes")
+            data = c07.write_grouped(cfg, stmts, cfg["groups"])
+        else:
+            data = nodes.serialize(cfg, plan["ops"], sim)
     except Exception as e:  # noqa: BLE001
         return [{"clause": "C03.serialize_raised", "sig": {"exc": type(e).__name__},
                  "msg": f"serializer raised {type(e).__name__}: {e}"}], None
-    r = refdec.decode_stream(data, nodes.wrote_delimited(cfg), strict=True)
+    r = refdec.decode_stream(data, True if plan.get("kind") == "grouped" else nodes.wrote_delimited(cfg), strict=True)
     a = r.audit
     for k in ("zero_name_ids", "zero_prefix_ids", "zero_entry_ids"):
         if a[k]:
@@ -89,7 +100,7 @@ def execute(plan, sim):
     if not cfg["ns"] and a["namespace_rows"]:
         v.append({"clause": "C03.namespace_rows_with_option_off", "sig": {}, "msg": "namespace rows written"})
     want_version = 2 if cfg["ns"] else 1
-    if cfg["entry"] not in ("sink_serialize", "graph_serialize_guess", "flat_file_guess") \
+    if cfg["entry"] not in ("sink_serialize", "graph_serialize_guess", "flat_file_guess", "shared_stream") \
             and r.options["version"] != want_version:
         v.append({"clause": "C03.version", "sig": {"got": r.options["version"]},
                   "msg": f"version {r.options['version']} with namespace_declarations={cfg['ns']}"})
